@@ -136,6 +136,13 @@ def run(ck):
         sites[name] = ok
         ck.ob('C09.counter', 'C09.counter/' + name, ok, f.loc(), '%s applies ChaCha20 with key_, the given nonce and derive_counter(chunk_id)' % name)
     purity(ck, P, fn)
+    # the output is sized to the input on every path (an early exit would hand back whatever a reused output vector held)
+    from sa.paths import Cfg as _Cfg
+    ap_ = fn('apply')
+    rz_ = [i for i in ap_.walk() if (ap_.nodes[i].get('callee') or '').endswith('::resize') or (ap_.nodes[i].get('callee') or '').endswith('::assign')]
+    cfg_ = _Cfg.of(ap_)
+    wit_ = cfg_.must_pass_from((cfg_.entry, -1), lambda e, s_=set(rz_): e in s_ or any(ap_.is_in(x, e) for x in s_) and ap_.nodes[e]['k'] == 'ExprWithCleanups') if rz_ else ['no resize']
+    ck.ob('C09.apply', 'C09.apply/output-sized-always', wit_ is None, ap_.loc(), 'every call of ChaCha20::apply sizes the output to the input, also for an empty input', wit_)
 
 
 def purity(ck, P, fn):
